@@ -135,4 +135,45 @@ O_T == { OSeq, OPar, OLoop(I2, FALSE), OSub(I1) }
 H_F == { Hdr(<<DLet("a", I2), DLet("__r0", I3), DLet("__c0", I1)>>, <<DReg("q", Let("__r0"))>>, <<>>, <<>>) }
 T_F == { G("g", <<QI("q", 0), F15>>), G("k", <<Qb("q", Let("a"))>>), G("h", <<Let("a"), Let("__c0")>>), G("prepare_all", <<>>) }
 O_F == { OSeq, OPar, OLoop(Let("a"), FALSE), OLoop(I2, FALSE), OSub(I1), OSub(Let("__r0")) }
+
+\* ---------------------------------------------------------------- C14: references that cannot be honoured
+VBase == <<DLet("a", I1), DLet("k", I3)>>
+VReg == DReg("q", I3)
+H_V == { Hdr(VBase, <<VReg, DSlice("r", "q", I1, I3, None), DIndex("s", "q", I2)>>, <<>>, ExactGates),
+         Hdr(VBase, <<VReg, DSlice("r", "q", I1, NumI(4), None)>>, <<>>, ExactGates),         \* stop > size
+         Hdr(VBase, <<VReg, DSlice("r", "q", NumI(-1), I2, None)>>, <<>>, ExactGates),        \* negative start
+         Hdr(VBase, <<VReg, DSlice("r", "q", I0, I2, I0)>>, <<>>, ExactGates),                \* zero step
+         Hdr(VBase, <<VReg, DWhole("r", "a")>>, <<>>, ExactGates),                            \* alias of a let
+         Hdr(VBase, <<VReg, DIndex("s", "q", I3)>>, <<>>, ExactGates),                        \* index = size
+         Hdr(VBase, <<VReg, DIndex("s", "q", Let("k"))>>, <<>>, ExactGates),                  \* let index = size
+         Hdr(VBase, <<VReg, DSlice("r", "q", Let("a"), Let("k"), None)>>, <<>>, ExactGates),  \* valid unless overridden
+         Hdr(VBase \o <<DLet("a", I2)>>, <<VReg>>, <<>>, ExactGates),                         \* duplicate let
+         Hdr(VBase, <<VReg, DIndex("a", "q", I0)>>, <<>>, ExactGates),                        \* let / alias clash
+         Hdr(VBase, <<DReg("q", Let("k")), DIndex("s", "q", I2)>>, <<>>, ExactGates) }        \* let-sized register
+M_V == << MD("m", <<"x", "p">>, {"seq"}, { G("X", <<Qb("q", Par("p"))>>), G("R", <<Par("x"), Par("p")>>) }, {}, 1) >>
+T_V == { G("X", <<QI("q", 0)>>), G("X", <<QI("q", 2)>>), G("X", <<QI("q", 3)>>), G("X", <<Qb("q", NumI(-1))>>),
+         G("X", <<Qb("q", Let("k"))>>), G("X", <<Qb("q", Let("a"))>>), G("m", <<QI("q", 2), I3>>), G("m", <<QI("q", 0), I1>>),
+         G("R", <<QI("q", 0), F15>>), G("X", <<Qb("a", I0)>>), G("X", <<Let("u")>>), G("U", <<QI("q", 0)>>),
+         G("X", <<QI("q", 0), QI("q", 1)>>), G("R", <<QI("q", 1), Let("a")>>) }
+O_V == { OSub(I1) }
+
+\* ---------------------------------------------------------------- C06: alias chains (two links over a register of size 3..4)
+NoneOr(S) == {None} \cup { NumI(x) : x \in S }
+Links(nm, src) == {DWhole(nm, src)} \cup { DIndex(nm, src, NumI(x)) : x \in 0..2 }
+                  \cup { DSlice(nm, src, a, b, c) : a \in NoneOr({0, 1, 2}), b \in NoneOr({-1, 1, 2, 3, 4}), c \in NoneOr({-1, 1, 2}) }
+                  \cup { DSlice(nm, src, Let("a"), Let("k"), None), DIndex(nm, src, Let("a")) }
+ChainHdr(n, l1, l2) == Hdr(<<DLet("a", I1), DLet("k", I3)>>, <<DReg("q", NumI(n)), l1, l2>>, <<>>, ExactGates)
+ChainOK(h) == LET p == [lets |-> h.lets, regs |-> h.regs, macros |-> <<>>, imports |-> <<>>, natives |-> h.natives, body |-> <<>>]
+                  t == RegTab(p, Env(p, <<>>))
+              IN \A r \in DOMAIN t : t[r].ok /\ Len(t[r].elems) >= 1      \* empty aliases are left unasserted
+\* a reduced link set for the quick tier
+LinksQ(nm, src) == {DWhole(nm, src)} \cup { DIndex(nm, src, NumI(x)) : x \in 0..1 }
+                   \cup { DSlice(nm, src, a, b, c) : a \in NoneOr({0, 1}), b \in NoneOr({-1, 2, 3}), c \in NoneOr({-1, 2}) }
+                   \cup { DSlice(nm, src, Let("a"), Let("k"), None), DIndex(nm, src, Let("a")) }
+H_CHQ == { h \in { ChainHdr(n, l1, l2) : n \in 3..4, l1 \in LinksQ("r", "q"), l2 \in LinksQ("s", "r") } : ChainOK(h) }
+H_CH == { h \in { ChainHdr(n, l1, l2) : n \in 3..4, l1 \in Links("r", "q"), l2 \in Links("s", "r") } : ChainOK(h) }
+M_CH == << MD("m", <<"x">>, {"seq"}, { G("X", <<Par("x")>>) }, {}, 1) >>
+T_CH == { G("X", <<QI("s", 0)>>), G("X", <<QI("s", 1)>>), G("X", <<QAl("s")>>), G("m", <<QI("s", 0)>>), G("X", <<Qb("s", Let("a"))>>),
+          G("H", <<QI("r", 0)>>) }
+O_CH == { OSub(I1) }
 =============================================================================
